@@ -347,7 +347,10 @@ func runHistory(in HistIn, dir string, tag string, tm timing) (recs []rec) {
 				e.okDials++
 				e.mu.Unlock()
 				if sc.Kind == "dialFail" {
-					prePeer.Close() // the other end is already gone
+					// "unreachable" for a connection that exists already: its other end is
+					// gone — the runtime end hangs up before reading a byte (and keeps its
+					// session table in step with the connection numbers)
+					rt.serve(prePeer, Script{Kind: "cut", Dir: "p2r", K: 0})
 				} else {
 					rt.serve(prePeer, sc)
 				}
